@@ -16,8 +16,10 @@ import (
 	"github.com/ipni/go-libipni/ingest/schema"
 	"github.com/libp2p/go-libp2p/core/crypto"
 	crypto_pb "github.com/libp2p/go-libp2p/core/crypto/pb"
+	"github.com/libp2p/go-libp2p/core/peer"
 	"github.com/libp2p/go-libp2p/core/record"
 	recpb "github.com/libp2p/go-libp2p/core/record/pb"
+	"github.com/multiformats/go-multibase"
 	"github.com/multiformats/go-multihash"
 	"google.golang.org/protobuf/proto"
 
@@ -29,6 +31,7 @@ type epSpec struct {
 	Sealer int `json:"sealer"` // pool index of the key that seals it; -1 = what the library does (the named identity's key, the ad signer's for the main provider's entry)
 	NAddrs int `json:"naddrs"`
 	MdLen  int `json:"mdlen"`
+	Spell  int `json:"spell,omitempty"` // how the ID string is spelled (see idString); the main provider's entry uses the provider's
 }
 
 type mutation struct {
@@ -42,7 +45,8 @@ type scenario struct {
 	Kind      string   `json:"kind"` // "verify"
 	Seed      uint64   `json:"seed"` // content seed
 	Signer    int      `json:"signer"`
-	Provider  int      `json:"provider"` // pool index named as ad.Provider
+	Provider  int      `json:"provider"`         // pool index named as ad.Provider
+	PSpell    int      `json:"pspell,omitempty"` // spelling of the Provider string (see idString)
 	Prev      bool     `json:"prev"`
 	NoEntries bool     `json:"no_entries"`
 	Rm        bool     `json:"rm"`
@@ -86,11 +90,48 @@ func mkAddrs(r *vlib.Rand, n int) []string {
 	return out
 }
 
+// Spellings of a peer ID in a string field.  peer.Decode accepts the first three; the
+// signature covers the STRING, whichever spelling it is.
+const (
+	spellBase58 = 0 // "12D3Koo..." / "Qm..." / "16Uiu...": peer.ID.String()
+	spellCidB32 = 1 // "bafz...": CIDv1 libp2p-key, base32
+	spellCidB36 = 2 // "k51..." / "k2k4...": CIDv1 libp2p-key, base36
+	spellJunk   = 3 // not a peer ID at all
+	nSpell      = 4
+)
+
+func idString(i, spell int) string {
+	id := pool.Ids[i].ID
+	switch spell {
+	case spellCidB32:
+		return peer.ToCid(id).String()
+	case spellCidB36:
+		s, err := peer.ToCid(id).StringOfBase(multibase.Base36)
+		if err != nil {
+			panic(err)
+		}
+		return s
+	case spellJunk:
+		return fmt.Sprintf("not-a-peer-id/%d", i)
+	}
+	return id.String()
+}
+
+func (sc *scenario) provStr() string { return idString(sc.Provider, sc.PSpell) }
+
+// epStr: the ID string of an entry; the main provider's entry repeats the Provider string
+func (sc *scenario) epStr(e epSpec) string {
+	if e.Named == sc.Provider {
+		return sc.provStr()
+	}
+	return idString(e.Named, e.Spell)
+}
+
 // unsignedAd builds the advertisement of a scenario, without signatures.
 func unsignedAd(sc *scenario) *schema.Advertisement {
 	r := vlib.NewRand(sc.Seed)
 	ad := &schema.Advertisement{
-		Provider:  pool.Ids[sc.Provider].ID.String(),
+		Provider:  sc.provStr(),
 		Addresses: mkAddrs(r, sc.NAddrs),
 		ContextID: r.Bytes(sc.CtxLen),
 		Metadata:  r.Bytes(sc.MdLen),
@@ -108,7 +149,7 @@ func unsignedAd(sc *scenario) *schema.Advertisement {
 		x := &schema.ExtendedProvider{Override: sc.Override, Providers: []schema.Provider{}}
 		for _, e := range sc.Eps {
 			x.Providers = append(x.Providers, schema.Provider{
-				ID:        pool.Ids[e.Named].ID.String(),
+				ID:        sc.epStr(e),
 				Addresses: mkAddrs(r, e.NAddrs),
 				Metadata:  r.Bytes(e.MdLen),
 			})
@@ -250,7 +291,7 @@ const (
 func signReal(sc *scenario, ad *schema.Advertisement) error {
 	fetch := func(id string) (crypto.PrivKey, error) {
 		for _, e := range sc.Eps {
-			if pool.Ids[e.Named].ID.String() == id {
+			if sc.epStr(e) == id {
 				k := e.Named
 				if e.Sealer >= 0 {
 					k = e.Sealer
@@ -449,6 +490,16 @@ func applyMutation(sc *scenario, ad *schema.Advertisement) bool {
 		}
 	case "rm":
 		ad.IsRm = !ad.IsRm
+	case "respell": // the same peer, another spelling of its ID: a different signed string
+		if sc.PSpell == spellJunk {
+			return false
+		}
+		ad.Provider = idString(sc.Provider, (sc.PSpell+1+m.Index%2)%3)
+	case "ep-respell":
+		if !epOK || sc.Eps[m.Ep].Named == sc.Provider {
+			return false
+		}
+		ad.ExtendedProvider.Providers[m.Ep].ID = idString(sc.Eps[m.Ep].Named, (sc.Eps[m.Ep].Spell+1+m.Index%2)%3)
 	// ---- the five further values of an extended-provider payload
 	case "ctx":
 		ad.ContextID = flipBytes(ad.ContextID, m.Index)
